@@ -23,7 +23,7 @@ import re
 import shlex
 
 from .lifter import (Source, Seg, Edits, LiftError, find_loops, rewrite_tail_continue,
-                     rewrite_string_add, rewrite_ctor_fn_value, strip_visibility)
+                     rewrite_string_add, rewrite_ctor_fn_value, strip_visibility, rewrite_try)
 
 REPO = os.environ.get('VERIF_REPO', '/repo')
 VERIF = os.path.dirname(os.path.dirname(os.path.abspath(__file__)))
@@ -148,6 +148,10 @@ def parse_template(text):
                     elif key == 'proof':
                         meta = dict(kv.split('=', 1) for kv in w[1:])
                         cur = ('proof', meta)
+                    elif key == 'ghost':
+                        meta = dict(kv.split('=', 1) for kv in w[1:])
+                        meta['_raw'] = '1'
+                        cur = ('proof', meta)
                     elif key == 'outline':
                         om = dict(shlex.split(kv)[0].split('=', 1) if False else kv.split('=', 1) for kv in shlex.split(d[len('outline'):]))
                         blk.outlines.append(om)
@@ -248,7 +252,7 @@ def _apply_loop_contracts(src, ed, loops, blk, canary):
             ed.ed.append((pos, pos, p.text, p.tag))
     for meta, txt in blk.proofs:
         at = meta.get('at')
-        body = 'proof {\n' + txt + '\n}\n'
+        body = (txt + '\n') if meta.get('_raw') else ('proof {\n' + txt + '\n}\n')
         if 'loop' in meta:
             l = loops[int(meta['loop'])]
             sig = src.sig
@@ -268,6 +272,8 @@ def _body_rewrites(src, ed, lo, hi, loops, blk, log):
     rewrite_tail_continue(src, ed, loops, lo, hi, log)
     rewrite_string_add(src, ed, lo, hi, log)
     rewrite_ctor_fn_value(src, ed, lo, hi, log)
+    if blk.args.get('desugar_try'):
+        rewrite_try(src, ed, lo, hi, log)
     text = src.text
     for frm, to in blk.substs:
         a0 = ed.start
@@ -390,6 +396,8 @@ def lift_block(blk, log, meta, canary=False):
     if kind == 'const':
         i, e = src.find_const(a['name'])
         ed = Edits(src, sig[i].start, sig[e].end)
+        if sig[i + 2].text == ':' and sig[i + 3].text == '&' and sig[i + 4].text == 'str':
+            ed.insert(sig[i + 4].start, "'static ", 'R0-static')  # verus! needs the elided lifetime of a const spelled out
         segs.extend(ed.render())
         segs.append(Seg('\n', tag='sep'))
         return segs
@@ -463,8 +471,10 @@ def lift_block(blk, log, meta, canary=False):
             ed.ed.append((pos, pos, p.text, p.tag))
         for m_, txt in blk.proofs:
             if m_.get('at') == 'fn_start':
-                ed.insert(sig[fi.open_idx].end, '\nproof {\n' + txt + '\n}\n', 'proof')
+                ed.insert(sig[fi.open_idx].end, ('\n' + txt + '\n') if m_.get('_raw') else ('\nproof {\n' + txt + '\n}\n'), 'proof')
         body = ed.render()
+        if a.get('loop_isolation') == '0':
+            body = [Seg('#[verifier::loop_isolation(false)]\n', tag='R0-attr')] + body
         impl_hdr = a.get('emit_impl', a.get('impl'))
         if a.get('free') or not impl_hdr:
             segs.extend(body)
@@ -478,7 +488,7 @@ def lift_block(blk, log, meta, canary=False):
         segs.append(Seg('{\n', tag='R5'))
         for m_, txt in blk.proofs:
             if m_.get('at') == 'fn_start':
-                segs.append(Seg('proof {\n' + txt + '\n}\n', tag='proof'))
+                segs.append(Seg((txt + '\n') if m_.get('_raw') else ('proof {\n' + txt + '\n}\n'), tag='proof'))
         segs.extend(ed.render())
         segs.append(Seg('\n}\n', tag='R5'))
     segs.extend(outline_segs)
